@@ -2,6 +2,7 @@ package main
 
 import (
 	"fmt"
+	"go/token"
 	"go/types"
 	"sort"
 	"strings"
@@ -87,36 +88,34 @@ func (e *Engine) verifyFunc(f *ssa.Function, ct *Contract) *FnVC {
 	return fv
 }
 
-// finish checks postconditions and the frame on the merged exit state.
+// finish checks postconditions, interface refinement and the frame at every
+// return of the function (one obligation per clause per return site).
 func (fv *FnVC) finish(in *inst) {
-	f := in.fn
-	ct := fv.ct
 	if len(in.rets) == 0 {
 		fv.note("function has no normal return")
 		return
 	}
-	// exit node: descendant of every return node
-	fv.curTag = len(in.order) + 1
-	a := map[int]bool{fv.curTag: true}
-	var conds []string
-	var sts []*State
-	for _, r := range in.rets {
-		for k := range fv.anc[r.node.tag] {
-			a[k] = true
+	rets := append([]retInfo(nil), in.rets...)
+	sort.SliceStable(rets, func(i, j int) bool { return rets[i].pos < rets[j].pos })
+	for ri, r := range rets {
+		fv.curTag = r.node.tag
+		suffix := ""
+		if len(rets) > 1 {
+			suffix = fmt.Sprintf("@ret%d", ri)
 		}
-		conds = append(conds, r.st.reach)
-		sts = append(sts, r.st)
+		fv.finishReturn(in, r, suffix)
 	}
-	fv.anc[fv.curTag] = a
-	st := fv.mergeStates(conds, sts)
+}
+
+func (fv *FnVC) finishReturn(in *inst, r retInfo, suffix string) {
+	f := in.fn
+	ct := fv.ct
+	st := r.st
+	vs := r.vals
 	sig := f.Signature
-	var vs []Val
-	for i := 0; i < sig.Results().Len(); i++ {
-		var col []Val
-		for _, r := range in.rets {
-			col = append(col, r.vals[i])
-		}
-		vs = append(vs, fv.mergeVals(conds, col))
+	pos := r.pos
+	if !pos.IsValid() {
+		pos = f.Pos()
 	}
 	ce := in.baseEnv(st)
 	for i, nm := range resultNames(sig) {
@@ -125,17 +124,65 @@ func (fv *FnVC) finish(in *inst) {
 	if len(vs) == 1 {
 		ce.vars["result"] = vs[0]
 	}
-	// parameters keep their entry values in contracts (Go parameters are
-	// mutable locals, SSA already refers to the entry values)
 	for _, en := range ct.Ensures {
 		t := ce.evalSpec(en.Expr)
-		fv.oblige(funcKey(f)+"#"+en.Name, "post", in.propsFor(en), st.reach, t, en.Expr, f.Pos())
+		fv.obligeClause(ce, funcKey(f)+"#"+en.Name+suffix, "post", in.propsFor(en), st.reach, t, en.Expr, pos)
 	}
 	if ce.err != nil {
 		fv.specErr(ce.err)
 	}
+	// behavioural subtyping: the interface-level contract of this method
+	for _, im := range fv.eng.refinedBy(f) {
+		isig := im.meth.Type().(*types.Signature)
+		ce2 := in.baseEnv(st)
+		ce2.vars = map[string]Val{}
+		ce2.pkg = im.meth.Pkg()
+		ce2.where = funcKey(f) + " refines " + im.meth.Name()
+		recv := in.params[0]
+		if recv.K == KLoc {
+			recv = Val{K: KIface, T: fmt.Sprintf("(mkiface %d %s)", fv.eng.tagOf(f.Signature.Recv().Type()), recv.T), Typ: im.iface}
+		} else if recv.K != KIface {
+			fv.note("value receiver: interface-level clauses about self skipped for " + funcKey(f))
+			continue
+		}
+		ce2.vars["self"] = recv
+		for i := 0; i < isig.Params().Len() && i+1 < len(in.params); i++ {
+			nm := isig.Params().At(i).Name()
+			if nm == "" || nm == "_" {
+				nm = fmt.Sprintf("a%d", i)
+			}
+			ce2.vars[nm] = in.params[i+1]
+			ce2.vars[fmt.Sprintf("a%d", i)] = in.params[i+1]
+		}
+		for i, nm := range resultNames(isig) {
+			ce2.vars[nm] = vs[i]
+		}
+		if len(vs) == 1 {
+			ce2.vars["result"] = vs[0]
+		}
+		for _, l := range im.ct.Lets {
+			ce2.vars[l[0]] = ce2.eval(l[1])
+		}
+		for _, en := range im.ct.Ensures {
+			t := ce2.evalSpec(en.Expr)
+			props := en.Props
+			if len(props) == 0 {
+				props = im.ct.Props
+			}
+			fv.obligeClause(ce2, funcKey(f)+"#refines:"+en.Name+suffix, "refines", props, st.reach, t, en.Expr, pos)
+		}
+		if ce2.err != nil {
+			fv.specErr(ce2.err)
+		}
+	}
 	// frame: every location allocated before entry and outside assigns is unchanged
 	if !fv.frameAny {
+		frameProps := append([]string(nil), in.propsFor(nil)...)
+		for _, im := range fv.eng.refinedBy(f) {
+			if im.ct.AssignsSet && !im.ct.AssignsAny && len(im.ct.Assigns) == 0 {
+				frameProps = append(frameProps, im.ct.Props...)
+			}
+		}
 		var keys []string
 		for k := range st.heaps {
 			keys = append(keys, k)
@@ -158,13 +205,46 @@ func (fv *FnVC) finish(in *inst) {
 			} else {
 				goal = implies(and("(< (root "+sk+") A0)", not(inFrame)), eq(fv.loadRaw(h, sk), fv.loadRaw(h0, sk)))
 			}
-			fv.oblige(funcKey(f)+"#frame:"+frameKeyName(k), "frame", in.propsFor(nil), st.reach, goal,
-				"assigns: only declared locations of pre-existing objects change ("+k+")", f.Pos())
+			fv.oblige(funcKey(f)+"#frame:"+frameKeyName(k)+suffix, "frame", frameProps, st.reach, goal,
+				"assigns: only declared locations of pre-existing objects change ("+k+")", pos)
 		}
 		if st.epoch != 0 && len(keys) == 0 {
-			fv.oblige(funcKey(f)+"#frame:all", "frame", in.propsFor(nil), st.reach, "false", "unknown call may write any memory", f.Pos())
+			fv.oblige(funcKey(f)+"#frame:all"+suffix, "frame", frameProps, st.reach, "false", "a call with unknown effects may write any memory", pos)
 		}
 	}
+}
+
+// obligeClause registers a clause obligation; when the known-findings file
+// lists it with a witness predicate, the clause is additionally proved on
+// the complement of the witness region.
+func (fv *FnVC) obligeClause(ce *cenv, id, kind string, props []string, guard, goal, clause string, pos token.Pos) {
+	for _, k := range fv.eng.known {
+		if k.Status != "known" || k.Witness == "" {
+			continue
+		}
+		match := k.Obligation == id
+		if strings.HasSuffix(k.Obligation, "*") {
+			match = strings.HasPrefix(id, strings.TrimSuffix(k.Obligation, "*"))
+		}
+		if !match {
+			continue
+		}
+		w := ce.evalSpec(k.Witness)
+		// complement first (it must hold), then the full clause (expected to fail)
+		o := &Obligation{ID: id + "!outside-known-finding", Kind: kind, Props: props, Func: funcKey(fv.top), Clause: "!(" + k.Witness + ") ==> " + clause,
+			tag: fv.curTag, nlines: len(fv.lines), guard: guard, goal: or(w, goal), fv: fv}
+		fv.obls = append(fv.obls, o)
+		o2 := &Obligation{ID: id, Kind: kind, Props: props, Func: funcKey(fv.top), Clause: clause, tag: fv.curTag, nlines: len(fv.lines), guard: guard, goal: goal, fv: fv}
+		if pos.IsValid() {
+			p := fv.eng.prog.Fset.Position(pos)
+			o.Pos = fmt.Sprintf("%s:%d", strings.TrimPrefix(p.Filename, fv.eng.repo+"/"), p.Line)
+			o2.Pos = o.Pos
+		}
+		fv.obls = append(fv.obls, o2)
+		fv.assume(guard, or(w, goal))
+		return
+	}
+	fv.oblige(id, kind, props, guard, goal, clause, pos)
 }
 
 func frameKeyName(k string) string {
